@@ -56,10 +56,41 @@ pub fn tables(out: &str) {
         } else {
             integral = false;
         }
+        // the same table as a state carries it after being written to JSON and read back, and the
+        // crystal family of the cells the library builds for the group (hard and LJ states)
+        let int_ops = |site: &WyckoffSite| -> Vec<Vec<i64>> {
+            site.symmetries
+                .iter()
+                .map(|t| {
+                    let m = mat(t);
+                    [m[(0, 0)], m[(0, 1)], m[(1, 0)], m[(1, 1)], 2. * m[(0, 2)], 2. * m[(1, 2)]]
+                        .iter()
+                        .map(|v| if v.is_finite() && (v - v.round()).abs() <= 1e-12 { v.round() as i64 } else { 99 })
+                        .collect()
+                })
+                .collect()
+        };
+        let mut stored: Vec<Vec<i64>> = vec![];
+        let mut families: Vec<String> = vec![];
+        if let Ok(st) = PackedState::from_group(LineShape::polygon(4).unwrap(), &wg) {
+            if let Ok(text) = serde_json::to_string(&st) {
+                if let Ok(j) = serde_json::from_str::<Value>(&text) {
+                    if let Ok(site) = serde_json::from_value::<WyckoffSite>(j["occupied_sites"][0]["wyckoff"].clone()) {
+                        stored = int_ops(&site);
+                    }
+                    families.push(j["cell"]["family"].as_str().unwrap_or("?").to_string());
+                }
+            }
+        }
+        if let Ok(st) = PotentialState::from_group(LJShape2::circle(), &wg) {
+            if let Ok(j) = serde_json::to_value(&st) {
+                families.push(j["cell"]["family"].as_str().unwrap_or("?").to_string());
+            }
+        }
         obj.insert(
             g.to_string(),
             json!({"name": wg.name, "family": fam, "ops": ops, "integral": integral,
-                   "strings": wg.wyckoff_str}),
+                   "strings": wg.wyckoff_str, "stored": stored, "stateFamilies": families}),
         );
     }
     fs::write(out, Value::Object(obj).to_string()).expect("write tables");
@@ -670,7 +701,10 @@ pub fn lattice(input: &str, out: &str) {
         t.checked += 1;
         t.nontrivial += 1;
         let scale = d * u;
-        let tol = 1e-12 * f64::max(1., 4. * ax / u);
+        // the cell angle reaches the code as an f64 (one ulp of pi/2 is 2e-16): a coordinate along B
+        // carries that times |B|, and the extent of the images grows with the shell count
+        let blen = (bx * bx + by * by).sqrt() / u;
+        let tol = 1e-12 * f64::max(1., 4. * ax / u) + 4e-15 * blen * (4. + (gi(&e, "fx") as f64).abs() / d + (gi(&e, "fy") as f64).abs() / d);
         let (x, y) = (gi(&e, "fx") as f64 / d, gi(&e, "fy") as f64 / d);
         let cart = farr(&e, "cart");
         let (ex, ey) = (cart[0] / scale, cart[1] / scale);
@@ -981,6 +1015,98 @@ pub fn pairs_obs(out: &str, thorough: bool, seed: u64) {
     for l in lines {
         writeln!(fo, "{}", l).unwrap();
     }
+}
+
+/// Polygons with many sides (32 to 96), where the rounded grid of PairsJudge is too coarse for the
+/// shallow overlaps that matter: a corner of one polygon pushed into the middle of an edge of
+/// the other by a fraction of the sagitta L^2/(8R), and random placements around the contact
+/// distance.  Judged by the exact separating-axis value of the two convex outlines computed in
+/// f64 (the vertices are those of the real shapes); verdicts only beyond 1e-7.
+pub fn pairs_many(out: &str, thorough: bool, seed: u64) {
+    use rand::Rng;
+    std::panic::set_hook(Box::new(|_| {}));
+    let mut rng = crate::suites::seeded(seed, 3434);
+    let mut checked = 0usize;
+    let mut asserted = 0usize;
+    let mut failures: Vec<Value> = vec![];
+    let verts = |s: &LineShape| -> Vec<[f64; 2]> { s.items.iter().map(|l| [l.start.x, l.start.y]).collect() };
+    let sizes: Vec<(usize, f64)> = if thorough {
+        vec![(32, 1.), (32, 3.), (33, 1.), (40, 1.), (48, 2.), (64, 1.), (96, 1.), (31, 1.), (24, 1.)]
+    } else {
+        vec![(32, 1.), (33, 1.), (40, 2.), (64, 1.), (24, 1.)]
+    };
+    for (n, r) in sizes {
+        let shape = match LineShape::from_radial("many", vec![r; n]) {
+            Ok(s) => s,
+            Err(_) => continue,
+        };
+        let half = PI / n as f64;
+        let apothem = r * half.cos();
+        let sagitta = r - apothem; // how far a corner can enter past the circumcircle of ... the edge
+        let mut cases: Vec<(Matrix3<f64>, Matrix3<f64>, String)> = vec![];
+        // corner of B into the middle of edge k of A, along the edge normal
+        for k in [0usize, 1, n / 3, n / 2].iter() {
+            let theta = (2 * k + 1) as f64 * half;
+            for f in [-0.5, -0.05, 0.02, 0.1, 0.3, 0.6, 0.9, 1.5, 4.0].iter() {
+                let depth = f * sagitta;
+                let d = apothem + r - depth;
+                // B turned so that one of its corners points back along the normal
+                let phi = theta + PI;
+                cases.push((rigid(0., 0, 0., 0.), rigid(phi, 0, d * theta.cos(), d * theta.sin()),
+                            format!("corner into edge {} of a {}-gon of radius {}, depth {:.3e}", k, n, r, depth)));
+            }
+        }
+        for _ in 0..(if thorough { 200 } else { 40 }) {
+            let t1 = rigid(pick_angle(&mut rng), rng.gen_range(0, 3), 0., 0.);
+            let dir = rng.gen::<f64>() * 2. * PI;
+            let th2 = pick_angle(&mut rng);
+            let m2: u8 = rng.gen_range(0, 3);
+            // contact distance by bisection on the exact separation
+            let pa: Vec<[f64; 2]> = verts(&shape.transform(&Transform2::from(t1)));
+            let sep_at = |d: f64| {
+                let pb = verts(&shape.transform(&Transform2::from(rigid(th2, m2, d * dir.cos(), d * dir.sin()))));
+                crate::oracle::poly_sep(&pa, &pb)
+            };
+            let (mut lo, mut hi) = (0.2 * r, 2.5 * r);
+            for _ in 0..60 {
+                let mid = 0.5 * (lo + hi);
+                if sep_at(mid) < 0. {
+                    lo = mid;
+                } else {
+                    hi = mid;
+                }
+            }
+            let contact = 0.5 * (lo + hi);
+            for off in [-0.3 * sagitta, -0.05 * sagitta, -1e-5, 1e-5, 0.05 * sagitta, 0.5 * sagitta].iter() {
+                let d = contact + off;
+                cases.push((t1, rigid(th2, m2, d * dir.cos(), d * dir.sin()), format!("{}-gon radius {} around contact, offset {:.3e}", n, r, off)));
+            }
+        }
+        for (t1, t2, what) in cases {
+            checked += 1;
+            let sep = crate::oracle::poly_sep(&verts(&shape.transform(&Transform2::from(t1))), &verts(&shape.transform(&Transform2::from(t2))));
+            if sep.abs() < 1e-7 {
+                continue;
+            }
+            asserted += 1;
+            let want = sep < 0.;
+            let mut answers = vec![];
+            for mo in motions().iter() {
+                let a = shape.transform(&Transform2::from(mo * t1));
+                let b = shape.transform(&Transform2::from(mo * t2));
+                answers.push(a.intersects(&b));
+                answers.push(b.intersects(&a));
+            }
+            if answers.iter().any(|x| *x != want) {
+                failures.push(json!({"what": format!("many-sided polygons: real answers contradict the exact separation {:.3e} ({})", sep, what),
+                    "state": {"sides": n, "radius": r, "t1": t1.iter().cloned().collect::<Vec<f64>>(), "t2": t2.iter().cloned().collect::<Vec<f64>>()},
+                    "observed": answers}));
+            }
+        }
+    }
+    let res = json!({"checked": checked, "asserted": asserted, "failures": failures.len(), "first_failures": failures.iter().take(10).collect::<Vec<_>>()});
+    let mut fo = fs::File::create(out).expect("out");
+    writeln!(fo, "{}", res).unwrap();
 }
 
 // ------------------------------------------------------------------------------------------
